@@ -30,6 +30,8 @@ ASSUMPTIONS = {
     "A-WF": "well-formedness of loaded rules and engines (conclusions have a variable with terms and a term; expression trees are finite and well-formed; a rule occurs once in its block; an output variable owns its fuzzy output) is a heap invariant established by the loaders and constructors",
     "A-KIND": "Defuzzifier.defuzzify returns an ndarray (np.nditer / item assignment need one); checked per concrete defuzzifier elsewhere",
     "H-WS": "hypothesis of property C19 itself: rules are written with whitespace-separated tokens, so the loaded expression tree has an `and`/`or` node iff ' and '/' or ' occurs in the antecedent text",
+    "A-DEEPCOPY": "copy.deepcopy returns a fresh object graph isomorphic to the original with internal references redirected (no class of the package overrides the copy protocol: checked statically)",
+    "A-LOADERS": "Antecedent.load / Consequent.load used through contracts: unload first; then either raise leaving the part unloaded, or store the structure parsed from the CURRENT text for the GIVEN engine (their bodies are the subject of C16)",
     "A-CTX": "contextlib.contextmanager / generator semantics: the code after `yield` runs exactly once on a normal exit; an exception of the with-body is raised at the `yield`, so only finally blocks and matching except handlers run; locals() at the first statement is self + the keyword parameters",
     "A-HEAPQ": "heapq.heappush/heappop implement a min-priority queue on tuples",
     "A-PY": "attribute lookup follows the MRO read from the source; no monkey-patching/metaclasses/__getattr__ on verified classes",
